@@ -35,11 +35,14 @@ class Stats:
     self.time = 0.0
     self.samples = []
     self.cross = []
+    self.slowest = []          # (seconds, logic, verdict) of the slowest queries: margin against the per-query budgets
 
   def record(self, logic, verdict, dt, text=None):
     d = self.by_logic.setdefault(logic, {})
     d[verdict] = d.get(verdict, 0) + 1
     self.time += dt
+    if dt > 2.0:
+      self.slowest = sorted(self.slowest + [(round(dt, 1), logic, verdict)], reverse=True)[:5]
     if text is not None and len(self.samples) < 3 and len(text) < 6000:
       self.samples.append({'logic': logic, 'verdict': verdict, 'smt2': text})
 
@@ -53,9 +56,10 @@ class Stats:
       if len(self.samples) < 4:
         self.samples.append(s)
     self.cross.extend(other.get('cross', []))
+    self.slowest = sorted(self.slowest + [tuple(x) for x in other.get('slowest', [])], reverse=True)[:5]
 
   def asdict(self):
-    return {'by_logic': self.by_logic, 'time': self.time, 'samples': self.samples, 'cross': self.cross}
+    return {'by_logic': self.by_logic, 'time': self.time, 'samples': self.samples, 'cross': self.cross, 'slowest': self.slowest}
 
   def total(self):
     return sum(sum(d.values()) for d in self.by_logic.values())
